@@ -66,8 +66,10 @@ def build(case, ctx):
     from flow.record import RecordStreamWriter
 
     n = 3 + case["s"] % 8
-    if case.get("i", 0) % 3 == 2:
+    if case.get("i", 0) % 4 == 2:
         records = same_name_family(case["s"], n + 2)
+    elif case.get("i", 0) % 4 == 1:
+        records = embedded_stream_family(case["s"], min(n, 5))
     else:
         records = workload.build_sequence(case["s"], thorough=False, n_records=n, n_descs=1 + case["s"] % 3, small=True)
     written = [observe.normalise(observe.obs(r)) for r in records]
@@ -99,6 +101,31 @@ def same_name_family(seed, n):
         for t, name in d.get_field_tuples():
             kw[name] = rng.randrange(1000) if t in ("varint", "uint16") else "v%d" % rng.randrange(1000)
         out.append(d.recordType(**kw))
+    return out
+
+
+def embedded_stream_family(seed, n):
+    """Records whose bytes / text fields carry a complete, valid record stream of OTHER records (header frame included): a
+    reader that searches damaged input for a stream header must not surface those as records of the outer stream."""
+    import io as _io
+    import random
+
+    from flow.record import RecordDescriptor, RecordStreamWriter
+
+    rng = random.Random(seed)
+    inner_d = RecordDescriptor("inner/rec", [("string", "who"), ("varint", "k")])
+    outer_d = RecordDescriptor("outer/carrier", [("varint", "idx"), ("bytes", "blob"), ("string", "note")])
+    out = []
+    for j in range(n):
+        buf = _io.BytesIO()
+        w = RecordStreamWriter(buf)
+        for k in range(rng.randint(1, 3)):
+            w.write(inner_d(who="embedded-%d-%d" % (j, k), k=k))
+        w.flush()
+        payload = buf.getvalue()
+        w.fp = None
+        blob = rng.choice([payload, b"junk" + payload, payload + payload[:19], payload[:19] + payload])
+        out.append(outer_d(idx=j, blob=blob, note=rng.choice(["plain", "RECORDSTREAM\n", payload[:19].decode("latin-1")])))
     return out
 
 
